@@ -1,8 +1,78 @@
-//! C17 observations (see props/c17.py for the consumer).
+//! probe
 #![allow(unused_imports, dead_code)]
 use crate::common::*;
 use serde_json::json;
+use spdcalc::prelude::*;
+use spdcalc::*;
+use std::sync::Mutex;
+
+static LAST: Mutex<String> = Mutex::new(String::new());
 
 pub fn run(_args: &[String]) {
-  emit(json!({"kind": "not_implemented", "property": "C17"}));
+  std::panic::set_hook(Box::new(|info| {
+    let loc = info.location().map(|l| format!("{}:{}:{}", l.file(), l.line(), l.column())).unwrap_or_default();
+    *LAST.lock().unwrap() = loc;
+  }));
+  let base = |ls: f64, lp: f64, theta: serde_json::Value, pp: serde_json::Value, sig_theta: f64| {
+    json!({
+      "crystal": {"kind": "KTP", "pm_type": "e->eo", "phi_deg": 0, "theta_deg": theta, "length_um": 2000, "temperature_c": 20},
+      "pump": {"wavelength_nm": lp, "waist_um": 100, "bandwidth_nm": 5.35, "average_power_mw": 1},
+      "signal": {"wavelength_nm": ls, "phi_deg": 0, "theta_deg": sig_theta, "waist_um": 100, "waist_position_um": "auto"},
+      "idler": "auto",
+      "periodic_poling": pp,
+      "deff_pm_per_volt": 7.6
+    })
+  };
+  let cases = vec![
+    ("ok", base(1550., 775., json!(90), json!({"poling_period_um": "auto"}), 0.)),
+    ("ls<lp explicit theta, no pp", base(700., 775., json!(90), json!(null), 0.)),
+    ("ls<lp auto theta", base(700., 775., json!("auto"), json!(null), 0.)),
+    ("ls<lp auto pp", base(700., 775., json!(90), json!({"poling_period_um": "auto"}), 0.)),
+    ("ls<lp explicit pp", base(700., 775., json!(90), json!({"poling_period_um": 46.5}), 0.)),
+    ("ls=lp auto theta", base(775., 775., json!("auto"), json!(null), 0.)),
+    ("sig 80deg auto theta", base(1550., 775., json!("auto"), json!(null), 80.)),
+    ("sig 80deg auto pp", base(1550., 775., json!(90), json!({"poling_period_um": "auto"}), 80.)),
+    ("sig 400deg auto theta", base(1550., 775., json!("auto"), json!(null), 400.)),
+    ("pp 0", base(1550., 775., json!(90), json!({"poling_period_um": 0.0}), 0.)),
+    ("auto theta + pp", base(1550., 775., json!("auto"), json!({"poling_period_um": 46.5}), 0.)),
+  ];
+  for (name, j) in cases {
+    let cfg: Result<SPDCConfig, _> = serde_json::from_value(j);
+    match cfg {
+      Err(e) => println!("{}: parse error {}", name, e),
+      Ok(cfg) => {
+        let r = guarded(move || cfg.try_as_spdc());
+        match r {
+          Err(m) => println!("{}: PANIC {} at {}", name, m, LAST.lock().unwrap()),
+          Ok(Err(e)) => println!("{}: Err {}", name, e),
+          Ok(Ok(s)) => println!("{}: Ok theta_c={:?} idler theta={:?} pp={:?}", name, s.crystal_setup.theta, s.idler.theta_internal(), s.pp),
+        }
+      }
+    }
+  }
+  // idempotence probe
+  let mk = |j: serde_json::Value| -> SPDC { serde_json::from_value::<SPDCConfig>(j).unwrap().try_as_spdc().unwrap() };
+  let mut j = base(1550., 775., json!(90), json!({"poling_period_um": "auto"}), 0.);
+  let s = mk(j.clone());
+  let o1 = s.clone().try_as_optimum().unwrap();
+  let o2 = o1.clone().try_as_optimum().unwrap();
+  println!("idem auto idler: {}", o1 == o2);
+  println!("o1 idler {:?}\n pp {:?}", o1.idler, o1.pp);
+  j["idler"] = json!({"wavelength_nm": 1500, "phi_deg": 180, "theta_deg": 0, "waist_um": 100});
+  let s = mk(j.clone());
+  let o1 = s.clone().try_as_optimum().unwrap();
+  let o2 = o1.clone().try_as_optimum().unwrap();
+  println!("idem explicit idler 1500: {} zi1={:?} zi2={:?}", o1 == o2, o1.idler_waist_position, o2.idler_waist_position);
+  let mut j = base(1550., 775., json!(40), json!(null), 2.);
+  let s = mk(j.clone());
+  let o1 = s.clone().try_as_optimum().unwrap();
+  let o2 = o1.clone().try_as_optimum().unwrap();
+  println!("idem no pp: {} theta {:?} {:?}", o1 == o2, o1.crystal_setup.theta, o2.crystal_setup.theta);
+  // round trip probe with angle wrap
+  j["signal"]["phi_deg"] = json!(359.99996);
+  let s = mk(j.clone());
+  let c1 = s.clone().as_config();
+  let c2 = c1.clone().try_as_spdc().unwrap().as_config();
+  println!("c1 phi {:?} c2 phi {:?}", c1.signal.phi_deg, c2.signal.phi_deg);
+  println!("{}", serde_json::to_string(&c1).unwrap());
 }
